@@ -5,14 +5,17 @@ import RbV.Spec.Hmm
 Log-space additions of the Rust code are multiplications here, `ln_sum_exp` is a plain sum, `LogProb` columns
 of the `Array2` matrices are `List Nat` of length `S` (`ix c k` = entry `k`).
 
-* `viterbi`  follows `viterbi_matrices` (per target state `Iterator::max_by` over the previous column with the
-  zero-aware comparator closure of the Rust code — `cmpZ`, `argmaxBy`, `selZ`; value = best · transition ·
-  emission; back-pointer)
-  and `viterbi_traceback` (arg-max of the last column with the last maximum winning, as `max_by_key`
-  does; then the back-pointers from the last column to the first).  Like the Rust code it does **not** look
-  at the end weights.
-* `viterbiE` is the same algorithm with the end weight multiplied into the last column before the final
-  arg-max: the reference that is correct for models with an explicit end vector.
+* `viterbi`  follows `hmm::viterbi` statement by statement:
+  1. `viterbi_matrices` = `col0` + `matFrom selZ` (per target state `Iterator::max_by` over the previous column
+     with the zero-aware comparator closure of the Rust code — `cmpZ`, `argmaxBy`, `selZ`; value = best ·
+     transition · emission; back-pointer).  The matrices do **not** contain the end weights.
+  2. `if hmm.has_end_state() { vals[[last, s]] += end_prob(s) }` = `addEnd`: the end weight is multiplied into
+     the **last** column only, after the matrix and all back-pointers are complete.
+  3. `viterbi_traceback` = `traceback`: arg-max of the last column with the last maximum winning, as
+     `max_by_key` does; then the back-pointers from the last column to the first.
+* `viterbiWith sel pick` is the same algorithm for an arbitrary predecessor selector `sel` and an arbitrary
+  arg-max `pick` of the last column, with the end weight always multiplied into the last column;
+  `viterbiE = viterbiWith selLast argmaxLast` is the reference the driver uses as oracle.
 * `forward`  follows `forward` (emission inside the sum, end weights in the final sum).
 * `backward` follows `backward`: row 0 = end weights, one row per observation from the last to the second,
   final sum with initial weights and the emission of the first observation.  `backwardLoop` is the literal
@@ -75,30 +78,53 @@ def matFrom (sel : Sel) (m : Hmm) (col : List Nat) : List Nat → List (List Nat
 /-- initial column -/
 def col0 (m : Hmm) (o : Nat) : List Nat := tab m.S fun s => m.init s * m.emit s o
 
-/-- `viterbi_traceback` started at column `col` followed by the columns `rest`: the path from the time of `col`
-to the end and the reported value.  `w` weights the last column before the final arg-max
-(`fun _ => 1` in the Rust code). -/
-def tracebackW (S : Nat) (w : Nat → Nat) (col : List Nat) : List (List Nat × List Nat) → List Nat × Nat
-  | [] => let k := argmaxLast (fun k => ix col k * w k) S; ([k], ix col k * w k)
-  | cf :: rest => let r := tracebackW S w cf.1 rest; (ix cf.2 (r.1.headD 0) :: r.1, r.2)
+/-- an arg-max over `0 … n-1` (the choice made in the last column by `viterbi_traceback`) -/
+abbrev Pick := (Nat → Nat) → Nat → Nat
 
-/-- literal `viterbi_traceback`: no weighting of the last column -/
+/-- first maximum wins (not what the code does; a second instance of a valid `Pick`) -/
+def argmaxFirst (f : Nat → Nat) : Nat → Nat
+  | 0 => 0
+  | n + 1 => if f (argmaxFirst f n) < f n then n else argmaxFirst f n
+
+/-- `viterbi_traceback` started at column `col` followed by the columns `rest`: the path from the time of `col`
+to the end and the reported value.  `w` weights the last column before the final arg-max `pick`. -/
+def tracebackW (pick : Pick) (S : Nat) (w : Nat → Nat) (col : List Nat) : List (List Nat × List Nat) → List Nat × Nat
+  | [] => let k := pick (fun k => ix col k * w k) S; ([k], ix col k * w k)
+  | cf :: rest => let r := tracebackW pick S w cf.1 rest; (ix cf.2 (r.1.headD 0) :: r.1, r.2)
+
+/-- literal `viterbi_traceback`: `max_by_key` over the last column as it stands (last maximum wins), reported
+value = that entry, then the back-pointers -/
 def traceback (S : Nat) (col : List Nat) : List (List Nat × List Nat) → List Nat × Nat
   | [] => let k := argmaxLast (ix col) S; ([k], ix col k)
   | cf :: rest => let r := traceback S cf.1 rest; (ix cf.2 (r.1.headD 0) :: r.1, r.2)
 
-/-- mirror of `hmm::viterbi`: zero-aware comparator, no end weights (the Rust code never calls `end_prob`) -/
+/-- `vals[[last, s]] = vals[[last, s]] + hmm.end_prob(s)` for every state -/
+def endCol (m : Hmm) (col : List Nat) : List Nat := tab m.S fun s => ix col s * m.fin s
+
+/-- the `for s in hmm.states()` loop of `hmm::viterbi` on the matrices `col :: mats`: only the value column of
+the **last** observation changes; every back-pointer column and every earlier value column stays as
+`viterbi_matrices` left it -/
+def addEnd (m : Hmm) (col : List Nat) : List (List Nat × List Nat) → List Nat × List (List Nat × List Nat)
+  | [] => (endCol m col, [])
+  | cf :: rest => let r := addEnd m cf.1 rest; (col, (r.1, cf.2) :: r.2)
+
+/-- mirror of `hmm::viterbi`: `viterbi_matrices` (zero-aware comparator, no end weights), then the end weights
+on the last column iff `has_end_state()`, then `viterbi_traceback` -/
 def viterbi (m : Hmm) : List Nat → List Nat × Nat
   | [] => ([], 0)
-  | o :: os => traceback m.S (col0 m o) (matFrom selZ m (col0 m o) os)
+  | o :: os =>
+    let col := col0 m o
+    let mats := matFrom selZ m col os
+    let vm := if m.hasEnd then addEnd m col mats else (col, mats)
+    traceback m.S vm.1 vm.2
 
-/-- Viterbi including the end weights, for any predecessor selector -/
-def viterbiWith (sel : Sel) (m : Hmm) : List Nat → List Nat × Nat
+/-- Viterbi including the end weights, for any predecessor selector and any final arg-max -/
+def viterbiWith (sel : Sel) (pick : Pick) (m : Hmm) : List Nat → List Nat × Nat
   | [] => ([], 0)
-  | o :: os => tracebackW m.S m.fin (col0 m o) (matFrom sel m (col0 m o) os)
+  | o :: os => tracebackW pick m.S m.fin (col0 m o) (matFrom sel m (col0 m o) os)
 
-/-- the reference used by the driver (what the property demands of a model with an end vector) -/
-def viterbiE (m : Hmm) : List Nat → List Nat × Nat := viterbiWith selLast m
+/-- the reference used by the driver (what the property demands of every model) -/
+def viterbiE (m : Hmm) : List Nat → List Nat × Nat := viterbiWith selLast argmaxLast m
 
 /-! ## forward -/
 
